@@ -43,7 +43,11 @@ inductive InitCall where
   | setExternalAgentsRegisterCount (n : Nat) | setAgentsReadyCount (n : Nat)
   | externalAgentRegistered | runtimeReady | agentReady | runtimeRestoreReady
   | cancelWithError (e : Option Nat) | clear
+  | awaitRuntimeReadyExpired     -- AwaitRuntimeReadyWithDeadline whose deadline passes with the gate closed
 deriving DecidableEq, Repr
+
+/-- the number under which the harness knows `interop.ErrRestoreHookTimeout` -/
+def errRestoreHookTimeout : Nat := 3
 
 def InitCall.expand : InitCall → List FOp
   | .setExternalAgentsRegisterCount n => [⟨0, .setCount n⟩]
@@ -54,6 +58,9 @@ def InitCall.expand : InitCall → List FOp
   | .runtimeRestoreReady => [⟨3, .walk⟩]
   | .cancelWithError e => [⟨0, .cancel e⟩, ⟨1, .cancel e⟩, ⟨2, .cancel e⟩, ⟨3, .cancel e⟩]
   | .clear => [⟨0, .clear⟩, ⟨1, .clear⟩, ⟨2, .clear⟩, ⟨2, .setCount 65535⟩, ⟨3, .clear⟩]   -- the agents-ready gate expects the maximum again
+  -- the restore hook's timeout cancels the WHOLE flow (every gate, same error), not only the gate awaited
+  | .awaitRuntimeReadyExpired => [⟨0, .cancel (some errRestoreHookTimeout)⟩, ⟨1, .cancel (some errRestoreHookTimeout)⟩,
+                                  ⟨2, .cancel (some errRestoreHookTimeout)⟩, ⟨3, .cancel (some errRestoreHookTimeout)⟩]
 
 inductive InvokeCall where
   | initializeBarriers | setAgentsReadyCount (n : Nat)
